@@ -43,18 +43,6 @@ def applyDefaultTimeDims (m : SModel) (metrics dims : List String) : List String
     else dims
   | none => dims
 
-/-- `replace_model_placeholder` on a column name -/
-def replacePlaceholder (m : SModel) (c : String) : String :=
-  if c.startsWith "{model}." then
-    (match m.source with
-     | .subquery _ _ => "t." ++ (c.drop 8).toString
-     | .table _ => (c.drop 8).toString)
-  else c
-
-/-- metric-level filter inside the CTE: `.replace("{model}.", "").replace("{model}", "")` -/
-def stripPlaceholder (c : String) : String :=
-  if c.startsWith "{model}." then (c.drop 8).toString else c
-
 structure Classified where
   pushdown : List Expr := []
   main : List Expr := []
@@ -76,11 +64,11 @@ def classify (m : SModel) (filters : List Expr) : Classified :=
     else if referencesModel m f then { acc with pushdown := acc.pushdown ++ [f] }
     else { acc with main := acc.main ++ [f] }) {}
 
-def dedup (l : List String) : List String := l.eraseDups
+def dedupS (l : List String) : List String := l.eraseDups
 
 /-- `_extract_metric_filter_columns` for direct simple-measure references -/
 def metricFilterCols (m : SModel) (metrics : List String) : List String :=
-  dedup <| metrics.flatMap fun r =>
+  dedupS <| metrics.flatMap fun r =>
     match split2 r with
     | some (mn, x) =>
       if mn == m.name then
@@ -97,7 +85,7 @@ def metricFilterCols (m : SModel) (metrics : List String) : List String :=
 /-- `_find_needed_dimensions` -/
 def neededDims (m : SModel) (parsed : List (String × Option String)) (pushdown : List Expr)
     (orderBy : List (String × Bool)) (mfc : List String) : List String :=
-  dedup <|
+  dedupS <|
     (parsed.filterMap fun (ref, _) =>
       if ref.startsWith (m.name ++ ".") then (ref.splitOn ".")[1]? else none) ++
     (pushdown.flatMap fun f => f.cols.filterMap fun c => match colParts c with
@@ -109,7 +97,7 @@ def neededDims (m : SModel) (parsed : List (String × Option String)) (pushdown 
     mfc
 
 def measuresNeeded (m : SModel) (metrics : List String) (mfc : List String) : List String :=
-  dedup <|
+  dedupS <|
     (metrics.filterMap fun r => match splitFirstDot r with
       | some (mn, x) => if mn == m.name && (m.measure? x).isSome then some x else none
       | none => if (m.measure? r).isSome then some r else none) ++
